@@ -163,7 +163,8 @@ Qed.
 (* ---------------------------------------------------------------- the id-value pairs *)
 Definition kv := (Z * list Z)%type.
 Definition kv_bytes (p : kv) : list Z := u64 (len (snd p) + 4) ++ u32 (fst p) ++ snd p.
-Definition wf_kv (p : kv) : Prop := fits32 (fst p) /\ len (snd p) + 4 < 18446744073709551616.
+(* the length of a value is a count read() accepts (at most 2^63 - 1), so the size field is below 2^63 + 4 *)
+Definition wf_kv (p : kv) : Prop := fits32 (fst p) /\ len (snd p) + 4 < 9223372036854775812.
 (* the records the loop builds: a pair is flagged when its id occurred before *)
 Fixpoint tag (seen : list pair) (kvs : list kv) : list pair :=
   match kvs with
@@ -179,7 +180,8 @@ Proof.
   assert (L : len (kv_bytes p) = 12 + len (snd p)) by (unfold kv_bytes; rewrite !len_app, len_u64, len_u32; lia).
   rewrite len_app, L. replace (12 + len (snd p) + len (flat_map kv_bytes kvs) <=? 0) with false by lia.
   unfold kv_bytes at 1. rewrite <- !app_assoc. rewrite read_u64_enc by lia. cbn [bind]. rewrite read_u32_enc by exact W1. cbn [bind].
-  replace (len (snd p) + 4 - 4) with (len (snd p)) by lia. replace (len (snd p) <? 0) with false by lia.
+  replace (len (snd p) + 4 - 4) with (len (snd p)) by lia. replace (9223372036854775807 <? len (snd p)) with false by lia.
+  replace (len (snd p) <? 0) with false by lia.
   rewrite takez_app, dropz_app. replace (12 + len (snd p) + len (flat_map kv_bytes kvs) - 12 - len (snd p)) with (len (flat_map kv_bytes kvs)) by lia.
   apply IH; [assumption | cbn [length] in Hf; lia].
 Qed.
